@@ -188,7 +188,7 @@ fn group(g: &mut Gen, grp: i64, nops: usize, out: &mut Out, agree: &mut Out) -> 
     let mut fd: File<Dense64> = File::new();
     g.reset();
     g.vec_bias = grp % 3 == 0;
-    let codec = match grp % 5 {
+    let codec = match if g.ladder { 0 } else { grp % 5 } {
         3 => Codec::Scale(if (grp / 5) % 2 == 0 { -60 } else { 40 }),
         4 => Codec::Ulp,
         _ => Codec::Plain,
@@ -264,6 +264,12 @@ fn main() {
             for i in 0..groups {
                 skipped_calls += group(&mut g, i as i64 + 1, 12, &mut out, &mut agree);
             }
+            // the size ladder: a handful of programs on operands with 63 .. 3000 entries
+            g.ladder = true;
+            for i in 0..(if th { 60 } else { 16 }) {
+                skipped_calls += group(&mut g, (groups + i) as i64 + 1, 8, &mut out, &mut agree);
+            }
+            g.ladder = false;
             let n = out.finish();
             let m = agree.finish();
             println!("events={} agree={} groups={} skipped={}", n, m, groups, skipped_calls);
